@@ -97,10 +97,12 @@ def main():
             "add_only_note": "All hook changes add lines except three declarations: `ctxPool sync.Pool` in router.go became `ctxPool verifCtxPool`, and in route_cache.go `lock *sync.RWMutex` / `new(sync.RWMutex)` became `*verifRWMutex` / `new(verifRWMutex)` (the then unused imports of sync were dropped). Both names are type aliases of the sync types when the guard is off, so the shipped build is the same code; with the guard on they are wrappers through which every pool operation and every lock acquisition, at any call site, reaches the simulator. Call-site hooks (the first version) missed operations added or moved by a change under test.",
         },
         "engines": [{"name": "ruxsim", "path": "/verif/ruxsim", "serves_properties": sorted(CLAIMED),
-                     "kind_free_text": "deterministic simulator for rux: seeded scheduler passing a baton between request goroutines, simulated ResponseWriter/pool/map-order seams, fault injection, structured shrinking, scenario-file replay"}],
+                     "kind_free_text": "deterministic simulator for rux: seeded scheduler passing a baton between request goroutines, simulated ResponseWriter/pool/map-order seams, fault injection, structured shrinking, scenario-file replay"},
+                    {"name": "instr", "path": "/verif/instr", "serves_properties": ["C03", "C07", "C10", "C14"],
+                     "kind_free_text": "go/ast tool run by ./check: copies /repo's working tree to a scratch directory with a scheduler yield woven before every statement of package rux; the ruxsim-pre binary (statement-level preemption profiles) is built against that copy, which is deleted afterwards"}],
         "checks": checks,
         "not_applicable": na,
-        "notes": "Exit 2 from a check means infrastructure trouble (build failure, watchdog, nondeterminism), never a verdict. known_findings.json lists recorded and fixed defects.",
+        "notes": "Exit 2 from a check means infrastructure trouble (build failure, watchdog, nondeterminism), never a verdict. known_findings.json lists recorded and fixed defects. ./check builds three binaries from /repo's working tree on every invocation (plain, -race, and for C03/C07/C10/C14 the statement-instrumented one); nothing under /tmp outlives a command.",
     }
     json.dump(m, open("/verif/MANIFEST.json", "w"), indent=1)
     print("checks:", [c["property_id"] for c in checks], "not_applicable:", [n["property_id"] for n in na])
